@@ -349,6 +349,9 @@ func (c *Checker) sameUnder(st *pathint.State, a, b lin.Form) (bool, lin.Form, l
 	if st.ProveSimplified(a2.Sub(b2)) && st.ProveSimplified(b2.Sub(a2)) {
 		return true, a2, b2
 	}
+	if c.IP.ProveZeroSplit(st, a2.Sub(b2), 3) {
+		return true, a2, b2
+	}
 	return false, a2, b2
 }
 
